@@ -60,6 +60,8 @@ SETS = {
 BASE = {'nop': [], 'h3': [], 'ldi': ['imm8'], 't12': ['imm8'], 'jmp': ['addr'], 'br': ['rel'], 'mov': ['regs', 'regs'],
         'brx': ['regs', 'rel'], 'bre': ['rele'], 'brxe': ['regs', 'rele'], 'ldm': ['mem'], 'jb': ['relb']}
 LABELS = ['start', 'loop', 'done', 'tbl', 'vec']
+# a macro may not share its mnemonic with an instruction (configuration error, not this property's business)
+MACRO_NAMES = [m for m in isagen.MACROS + ['mset', 'jz2', 'push.w'] if m not in BASE]
 
 
 def base_isa(draw):
@@ -85,11 +87,17 @@ def base_isa(draw):
 
 
 @st.composite
-def _macro_variant(draw, nops_choices=(0, 1, 1, 2, 2)):
+def _macro_variant(draw, nops_choices=(0, 1, 1, 2, 2), like=None, allow_bad=True):
     nops = draw(st.sampled_from(nops_choices))
     osets = [draw(st.sampled_from(['imm8', 'addr', 'rel', 'regs', 'regs', 'mem', 'relb'])) for _ in range(nops)]
     v = {}
-    if nops == 0 and draw(st.integers(0, 3)) == 0:
+    if like is not None:
+        # same operand configuration as an existing variant: both match the same invocations, the first one wins
+        osets = list(((like.get('operands') or {}).get('operand_sets') or {}).get('list', []))
+        nops = len(osets)
+        if 'operands' in like:
+            v['operands'] = copy.deepcopy(like['operands'])
+    elif nops == 0 and draw(st.integers(0, 3)) == 0:
         # a listed combination whose only member is an 'empty' operand: invoked without operands
         v['operands'] = {'count': 1, 'specific_operands': {'none': {'list': {'e': {'type': 'empty', 'bytecode': {'value': 1, 'size': 2}}}}}}
         if draw(st.booleans()):
@@ -101,7 +109,7 @@ def _macro_variant(draw, nops_choices=(0, 1, 1, 2, 2)):
             v['operands']['operand_sets'] = {'list': osets}
     steps = []
     nsteps = draw(st.integers(1, 4))
-    bad = draw(st.integers(0, 11)) == 0
+    bad = allow_bad and draw(st.integers(0, 11)) == 0
     for si in range(nsteps):
         mn = draw(st.sampled_from(sorted(BASE)))
         slots = []
@@ -155,15 +163,20 @@ def _macro_variant(draw, nops_choices=(0, 1, 1, 2, 2)):
 def _cases(draw, tier):
     cfg = base_isa(draw)
     macros = {}
-    for name in draw(st.lists(st.sampled_from(isagen.MACROS), min_size=1, max_size=3, unique=True)):
+    for name in draw(st.lists(st.sampled_from(MACRO_NAMES), min_size=1, max_size=3, unique=True)):
         macros[name] = [draw(_macro_variant()) for _ in range(draw(st.integers(1, 3)))]
+        if draw(st.integers(0, 3)) == 0:
+            macros[name].append(draw(_macro_variant(like=draw(st.sampled_from(macros[name])), allow_bad=False)))
     cfg['macros'] = macros
     isa = R.Isa(cfg)
+    origin = draw(st.sampled_from([0, 0x100, 0x7F00]))
+    # case-twins of the label names, bound to other values: an invocation may be repeated with them
+    twins = {n: n.upper() for n in LABELS}
     nlines = draw(st.integers(2, 7))
     labels = draw(st.lists(st.sampled_from(LABELS), min_size=2, max_size=4, unique=True))
     # the templates may name any of LABELS: define them all
     labels = list(LABELS)
-    body = []
+    body = [{'t': 'const', 'name': twins[n], 'value': origin + draw(st.integers(0, 40))} for n in LABELS]
     pending = list(labels)
     for i in range(nlines):
         if pending and draw(st.booleans()):
@@ -176,6 +189,10 @@ def _cases(draw, tier):
             for sname in ((mv.get('operands') or {}).get('operand_sets') or {}).get('list', []):
                 ops.append(draw(_operand(sname, labels)))
             body.append({'t': 'macro', 'mn': mname, 'ops': ops})
+            if ops and draw(st.integers(0, 2)) == 0:
+                ops2 = [isagen.twin_operand(o, twins) for o in ops]
+                if ops2 != ops:
+                    body.append({'t': 'macro', 'mn': mname, 'ops': ops2, 'twin': True})
         elif k < 8:
             body.append({'t': 'instr', 'mn': 'ldi', 'ops': [{'k': 'expr', 'e': ['num', draw(st.integers(0, 255)), 'dec']}]})
         else:
@@ -184,7 +201,7 @@ def _cases(draw, tier):
         body.append({'t': 'label', 'name': n})
         body.append({'t': 'instr', 'mn': 'nop', 'ops': []})
     body.append({'t': 'data', 'd': '.2byte', 'vals': [['lab', draw(st.sampled_from(labels))]]})
-    return {'isa': cfg, 'body': body, 'origin': draw(st.sampled_from([0, 0x100, 0x7F00]))}
+    return {'isa': cfg, 'body': body, 'origin': origin}
 
 
 @st.composite
@@ -288,6 +305,8 @@ def render(body, isa, expanded):
                 lines.append(isagen.render_statement(it['mn'], it['ops']))
         elif it['t'] == 'instr':
             lines.append(isagen.render_statement(it['mn'], it['ops']))
+        elif it['t'] == 'const':
+            lines.append(f"{it['name']} = {it['value']}")
         else:
             lines.append(it['d'] + ' ' + ', '.join(exprs.render(e) for e in it['vals']))
     return '\n'.join(lines) + '\n', infos
@@ -328,6 +347,8 @@ def execute(case, ctx):
                 feats.add('partial-byte-step')
             if m in ('br', 'brx', 'bre', 'brxe') and i >= 1:
                 feats.add('relative-step-at-position>=2')
+    if any(it.get('twin') for it in case['body']):
+        feats.add('repeated-with-case-twin-operands')
     if r1.klass == 'timeout':
         findings.append(Finding('C10/timeout', detail))
         return Outcome(findings, True, ['timeout'], 1)
